@@ -52,49 +52,94 @@ theorem skip_machine (n p : Nat) (hp : p < 100) (hsz : n * 100 < 2 ^ 64) :
 
 /-! ### hold-out -/
 
-def swapBody : List Op0 := [swap .tr (var "i") (sup (add 64 (var "i") (lit 1)))]
+theorem lookup_filter_ne (x y : String) (l : List (String × Nat)) (h : (y == x) = false) :
+    List.lookup y (l.filter (fun p => p.1 != x)) = List.lookup y l := by
+  induction l with
+  | nil => rfl
+  | cons p l ih =>
+    by_cases hp : p.1 = x
+    · obtain ⟨a, b⟩ := p
+      simp only at hp
+      subst hp
+      simp [List.filter, List.lookup, h, ih]
+    · obtain ⟨a, b⟩ := p
+      have hpx : (a != x) = true := by simpa using hp
+      simp only [List.filter, hpx, List.lookup]
+      rw [ih]
+
+theorem lookup_setLoc {α} (m : M α) (x y : String) (v : Nat) :
+    List.lookup y (m.setLoc x v).loc = if y == x then some v else List.lookup y m.loc := by
+  unfold M.setLoc
+  by_cases h : (y == x) = true
+  · simp [List.lookup, h]
+  · have h' : (y == x) = false := by simpa using h
+    simp only [List.lookup, h', Bool.false_eq_true, if_false]
+    exact lookup_filter_ne x y m.loc h'
+
+@[simp] theorem setLoc_tr {α} (m : M α) (x v) : (m.setLoc x v).tr = m.tr := rfl
+@[simp] theorem setLoc_va {α} (m : M α) (x v) : (m.setLoc x v).va = m.va := rfl
+@[simp] theorem setLoc_rng {α} (m : M α) (x v) : (m.setLoc x v).rng = m.rng := rfl
+@[simp] theorem setLoc_clT {α} (m : M α) (x v) : (m.setLoc x v).clT = m.clT := rfl
+@[simp] theorem setLoc_clV {α} (m : M α) (x v) : (m.setLoc x v).clV = m.clV := rfl
+@[simp] theorem setLoc_ret {α} (m : M α) (x v) : (m.setLoc x v).ret = m.ret := rfl
+
+def swapBody : List Op0 :=
+  [set "curr" (var "i"), set "rand" (sup (add 64 (var "i") (lit 1))), swap .tr (var "curr") (var "rand")]
+
+/-- one iteration of the body: `curr = begin + i; rand = begin + sup(i + 1); iter_swap(curr, rand)` -/
+theorem swapBody_step {α} (ops : ElemOps α) (cf : CallFn α) (env : Env) (m : M α) (v : Nat)
+    (hi : m.loc.lookup "i" = some v) (hv : v < m.tr.length) (hl : m.tr.length < 2 ^ 64) (hr : m.ret = none) :
+    ∃ m', exec0s ops cf env none swapBody m = some m' ∧
+      m'.tr = swapAt m.tr v (env.draws m.rng % (v + 1)) ∧ m'.va = m.va ∧ m'.rng = m.rng + 1 ∧
+      m'.clT = m.clT ∧ m'.clV = m.clV ∧ m'.ret = none ∧
+      m'.loc.lookup "i" = some v ∧ m'.loc.lookup "skip" = m.loc.lookup "skip" := by
+  have hv1 : addW 64 v 1 = v + 1 := addW_of_lt _ _ _ (by omega)
+  have hdl : env.draws m.rng % (v + 1) < m.tr.length := by
+    have := Nat.mod_lt (env.draws m.rng) (show 0 < v + 1 by omega); omega
+  simp [swapBody, exec0s, exec0, evalIx, hi, hr, M.setRng, lookup_setLoc, hv1, M.get, M.put, hv, hdl]
 
 /-- the partial Fisher–Yates loop of the table is `shuffleTail` -/
 theorem loop_shuffle {α} (ops : ElemOps α) (cf : CallFn α) (env : Env) (t : Nat) :
-    ∀ (v k : Nat) (l va : List α) (rest : List (String × Nat)) (rng clT clV fuel : Nat),
-      t = v + 1 - k → 1 ≤ k → v < l.length → l.length < 2 ^ 64 → t + 1 ≤ fuel →
-      rest.filter (fun p => p.1 != "i") = rest → rest.lookup "skip" = some k →
-      loopDown ops cf env none "i" (ge (var "i") (var "skip")) swapBody fuel
-        ⟨l, va, ("i", v) :: rest, rng, clT, clV, none⟩ =
-      some ⟨shuffleTail (fun i => env.draws (rng + (v - i)) % (i + 1)) t v l, va,
-            ("i", v - t) :: rest, rng + t, clT, clV, none⟩ := by
+    ∀ (v k : Nat) (m : M α) (fuel : Nat),
+      t = v + 1 - k → 1 ≤ k → v < m.tr.length → m.tr.length < 2 ^ 64 → t + 1 ≤ fuel →
+      m.loc.lookup "i" = some v → m.loc.lookup "skip" = some k → m.ret = none →
+      ∃ m', loopDown ops cf env none "i" (ge (var "i") (var "skip")) swapBody fuel m = some m' ∧
+        m'.tr = shuffleTail (fun i => env.draws (m.rng + (v - i)) % (i + 1)) t v m.tr ∧
+        m'.va = m.va ∧ m'.rng = m.rng + t ∧ m'.clT = m.clT ∧ m'.clV = m.clV ∧ m'.ret = none ∧
+        m'.loc.lookup "skip" = some k := by
   induction t with
   | zero =>
-    intro v k l va rest rng clT clV fuel ht hk hv hl hf hrest hskip
+    intro v k m fuel ht hk hv hl hf hi hskip hr
     obtain ⟨f, rfl⟩ : ∃ f, fuel = f + 1 := ⟨fuel - 1, by omega⟩
     have hlt : ¬ (v ≥ k) := by omega
-    simp [loopDown, evalB, evalIx, List.lookup, hskip, hlt, M.setRng, shuffleTail]
+    refine ⟨m, ?_, rfl, rfl, rfl, rfl, rfl, hr, hskip⟩
+    simp [loopDown, evalB, evalIx, hi, hskip, hlt, M.setRng, hr]
+    cases m; simp_all
   | succ t ih =>
-    intro v k l va rest rng clT clV fuel ht hk hv hl hf hrest hskip
+    intro v k m fuel ht hk hv hl hf hi hskip hr
     obtain ⟨f, rfl⟩ : ∃ f, fuel = f + 1 := ⟨fuel - 1, by omega⟩
     have hge : v ≥ k := by omega
-    have hv1 : addW 64 v 1 = v + 1 := addW_of_lt _ _ _ (by omega)
-    have hdl : env.draws rng % (v + 1) < l.length := by
-      have := Nat.mod_lt (env.draws rng) (show 0 < v + 1 by omega); omega
+    obtain ⟨m1, hb, h1tr, h1va, h1rng, h1clT, h1clV, h1ret, h1i, h1skip⟩ :=
+      swapBody_step ops cf env m v hi hv hl hr
     have hdec : decr64 v = v - 1 := decr64_pos v (by omega) (by omega)
-    simp [loopDown, evalB, evalIx, List.lookup, hskip, hge, M.setRng, swapBody, exec0s, exec0, M.get,
-      M.put, M.setLoc, hv1, hv, hdl, hrest, hdec, shuffleTail]
-    have := ih (v - 1) k (swapAt l v (env.draws rng % (v + 1))) va rest (rng + 1) clT clV f
-      (by omega) hk (by rw [swapAt_length]; omega) (by rw [swapAt_length]; exact hl) (by omega) hrest hskip
-    rw [swapBody] at this
-    rw [this]
-    have e1 : v - 1 - t = v - (t + 1) := by omega
-    have e2 : rng + 1 + t = rng + (t + 1) := by omega
-    have e3 : shuffleTail (fun i => env.draws (rng + 1 + (v - 1 - i)) % (i + 1)) t (v - 1)
-        (swapAt l v (env.draws rng % (v + 1))) =
-        shuffleTail (fun i => env.draws (rng + (v - i)) % (i + 1)) t (v - 1)
-        (swapAt l v (env.draws rng % (v + 1))) := by
+    have hm : (m.setRng m.rng) = m := rfl
+    obtain ⟨m2, h2, h2tr, h2va, h2rng, h2clT, h2clV, h2ret, h2skip⟩ :=
+      ih (v - 1) k (m1.setLoc "i" (v - 1)) f (by omega) hk
+        (by simp [h1tr, swapAt_length]; omega) (by simp [h1tr, swapAt_length]; exact hl) (by omega)
+        (by simp [lookup_setLoc]) (by simp [lookup_setLoc, h1skip, hskip]) (by simp [h1ret])
+    refine ⟨m2, ?_, ?_, ?_, ?_, ?_, ?_, h2ret, h2skip⟩
+    · rw [loopDown]
+      simp [evalB, evalIx, hi, hskip, hge, hr, hm, hb, h1i, hdec, h2]
+    · rw [h2tr]
+      simp only [setLoc_tr, setLoc_rng, h1tr, h1rng, shuffleTail, Nat.sub_self, Nat.add_zero]
       apply shuffleTail_congr
       intro j hj
-      have : rng + 1 + (v - 1 - j) = rng + (v - j) := by omega
+      have : m.rng + 1 + (v - 1 - j) = m.rng + (v - j) := by omega
       simp only [this]
-    rw [e1, e2, e3]
-
+    · simp [h2va, h1va]
+    · simp [h2rng, h1rng]; omega
+    · simp [h2clT, h1clT]
+    · simp [h2clV, h1clV]
 /-- run 0: the table computes `holdoutInit` on the draws `drawOf`, consumes one raw value per swap and
     clears the training evaluator iff it was given one -/
 theorem holdout_bridge0 {α} (ops : ElemOps α) (env : Env) (s : Sets α) (rng clT clV : Nat)
@@ -106,27 +151,33 @@ theorem holdout_bridge0 {α} (ops : ElemOps α) (env : Env) (s : Sets α) (rng c
             clT + (if env.hasEvaT then 1 else 0), clV, none⟩ := by
   have hk := skip_machine s.tr.length env.perc hp hsz
   have hsub : subW 64 s.tr.length 1 = s.tr.length - 1 := subW_of_le _ _ _ (by omega) hn
-  simp [runFn, Tables.prog, Tables.holdoutInit, execOps, execOp, evalB, evalIx, M.enter, List.lookup,
-    exec0s, exec0, M.setRng, M.setLoc, M.get, hk, hsub]
   have hle := skipOf_le s.tr.length env.perc hn
   have hpos := skipOf_pos s.tr.length env.perc
-  have hloop := loop_shuffle ops (fun g a m' => none) env (s.tr.length - skipOf s.tr.length env.perc)
-    (s.tr.length - 1) (skipOf s.tr.length env.perc) s.tr s.va
-    [("skip", skipOf s.tr.length env.perc), ("available", s.tr.length), ("perc", env.perc), ("run", 0)]
-    rng clT clV (s.tr.length - 1 + 2) (by omega) hpos (by omega) (by omega) (by omega) (by simp)
-    (by simp [List.lookup])
+  simp [runFn, Tables.prog, Tables.holdoutInit, execOps, execOp, evalB, evalIx, M.enter, List.lookup,
+    exec0s, exec0, M.setRng, M.setLoc, M.get, hk, hsub]
+  obtain ⟨m', hloop, htr, hva, hrng, hclT, hclV, hret, hskip⟩ :=
+    loop_shuffle ops (fun _ _ _ => none) env (s.tr.length - skipOf s.tr.length env.perc)
+      (s.tr.length - 1) (skipOf s.tr.length env.perc)
+      ⟨s.tr, s.va, [("i", s.tr.length - 1), ("skip", skipOf s.tr.length env.perc), ("available", s.tr.length),
+        ("perc", env.perc), ("run", 0)], rng, clT, clV, none⟩ (s.tr.length - 1 + 2)
+      (by omega) hpos (by simp; omega) (by simp; omega) (by omega) (by simp [List.lookup])
+      (by simp [List.lookup]) rfl
   rw [swapBody] at hloop
   rw [hloop]
   have hd : (fun i => env.draws (rng + (s.tr.length - 1 - i)) % (i + 1)) = drawOf env rng s.tr.length := rfl
-  simp only [List.lookup, M.put, hd, holdoutInit]
+  simp only [hd] at htr
   have hlen := (shuffleTail_perm (drawOf env rng s.tr.length) (s.tr.length - skipOf s.tr.length env.perc)
     (s.tr.length - 1) s.tr).length_eq
+  simp only [holdoutInit]
   generalize shuffleTail (drawOf env rng s.tr.length) (s.tr.length - skipOf s.tr.length env.perc)
-    (s.tr.length - 1) s.tr = sh at hlen ⊢
-  have htk : List.take (sh.length - skipOf s.tr.length env.perc) (List.drop (skipOf s.tr.length env.perc) sh)
-      = List.drop (skipOf s.tr.length env.perc) sh := List.take_of_length_le (by simp)
-  rw [hlen] at htk
-  cases hE : env.hasEvaT <;> simp [List.lookup, hlen, hle, htk]
+    (s.tr.length - 1) s.tr = sh at hlen htr ⊢
+  have htk : List.take (s.tr.length - skipOf s.tr.length env.perc) (List.drop (skipOf s.tr.length env.perc) sh)
+      = List.drop (skipOf s.tr.length env.perc) sh := List.take_of_length_le (by simp; omega)
+  obtain ⟨tr', va', loc', rng', clT', clV', ret'⟩ := m'
+  simp only at htr hva hrng hclT hclV hret hskip
+  subst htr hva hrng hclT hclV hret
+  cases hE : env.hasEvaT <;>
+    simp [hskip, lookup_setLoc, M.put, M.setLoc, List.lookup, hlen, hle, htk]
 
 /-- later runs: nothing happens (the `return` is reached before anything else) -/
 theorem holdout_bridge_later {α} (ops : ElemOps α) (env : Env) (run : Nat) (s : Sets α) (rng clT clV : Nat)
